@@ -5,7 +5,7 @@ import re
 
 from .. import AnalysisError
 from ..cfg import ALL_KINDS, NORMAL_KINDS, iter_own
-from ..lib import attr_stores, dominated_by, iteration_paths, guard_forms, key_of, norm, render, type_is
+from ..lib import always_followed_by, attr_stores, dominated_by, iteration_paths, guard_forms, key_of, norm, render, type_is
 from ..report import describe, rule
 
 P = "C04"
@@ -370,3 +370,90 @@ def c04_8(ctx, r):
     from .c09 import c09_7
 
     c09_7(ctx, r)
+
+
+@rule(P, "C04.9", "T2", "every pass that consumed results scans the waiting jobs: nothing leaves the pass between the two", min_obligations=1)
+def c04_9(ctx, r):
+    """_update_completed_jobs consumes newly collected results (they are handed out once) and then scans the not-submitted jobs to cancel the
+    flagged dependents of failed jobs and to release the others.  A `break` / `return` between the consumption and the scan (for a canceled
+    submission, say: `cancel-jobs` runs a final round exactly to settle such jobs) drops the failures it just consumed: the flagged dependents
+    never get their 'canceled' record and the unflagged ones are never released."""
+    fn = ctx.fn(SUB, "C04.9")
+    cfg = ctx.cfg(fn)
+    consume = [lp for lp in iter_own(fn.node) if isinstance(lp, ast.For) and any(isinstance(c, ast.Call) and isinstance(c.func, ast.Attribute) and c.func.attr == "process_results" for c in ast.walk(lp.iter))]
+    scans = []
+    for lp in iter_own(fn.node):
+        if isinstance(lp, ast.For) and isinstance(lp.iter, ast.Call):
+            s = ctx.cg.site_of(fn, lp.iter)
+            if s is not None and s.calls_short(ctx.ix, "Cluster.iter_jobs"):
+                scans.append(lp)
+    if len(consume) != 1 or not scans:
+        raise AnalysisError("C04.9", f"{len(consume)} consuming loops and {len(scans)} scans in _update_completed_jobs")
+    heads = [n for lp in scans for n in cfg.nodes if n.kind in ("loop", "for", "test", "stmt") and n.ast is lp]
+    chead = [n for n in cfg.nodes if n.ast is consume[0]]
+    if not heads or not chead:
+        heads = [n for lp in scans for n in cfg.nodes_of(lp.iter)]
+        chead = cfg.nodes_of(consume[0].iter)
+    if not heads or not chead:
+        raise AnalysisError("C04.9", "loop heads not found in the CFG")
+    for c in chead:
+        r.check(always_followed_by(ctx, fn, c, heads, kinds=NORMAL_KINDS), "the scan follows the consumption on every normal path", key_of(fn, "pass left between consumption and scan"), fn.loc(consume[0]),
+                "_update_completed_jobs can leave the pass (break / return / continue) after it consumed this round's results and before it scanned the waiting jobs: failures consumed on that path never cancel "
+                "their flagged dependents, and finished blockers are never removed from the others", "once a job has failed ... every not-yet-submitted dependent flagged cancel-on-failure is recorded as canceled")
+
+
+@rule(P, "C04.10", "T6", "a live handle's job status is never re-read from disk between a round's in-memory changes and their write", min_obligations=2)
+def c04_10(ctx, r):
+    """The round removes finished blockers from the cluster's job records *in memory* (_update_completed_jobs) and persists them with the status
+    update at the end.  Cluster._deserialize_jobs replaces self._job_status wholesale; it belongs to the load path (Cluster._deserialize) and to
+    the explicit public reload.  Called from an update it silently throws the round's removals away - a dependent whose blocker's result was
+    collected while max-nodes was full is never released."""
+    dj = ctx.fn("Cluster._deserialize_jobs", "C04.10")
+    allowed = {"Cluster._deserialize", "Cluster.deserialize_jobs"}
+    n = 0
+    for s in ctx.cg.call_sites_of(dj.qual):
+        n += 1
+        r.check(s.fn.short in allowed, f"{s.fn.short} may reload the job status", key_of(s.fn, "reloads job status from disk"), s.loc,
+                f"{s.fn.short} re-reads job_status.json into a live handle: in-memory changes made by the round so far (finished blockers removed, states set) are discarded before they were written",
+                "a dependent not flagged that way still starts once all its blockers have an outcome")
+    pub = ctx.fn("Cluster.deserialize_jobs", "C04.10")
+    for s in ctx.cg.call_sites_of(pub.qual):
+        n += 1
+        ok = s.fn.short not in ("HpcSubmitter.run", "HpcSubmitter._update_completed_jobs", "HpcSubmitter._update_status", "HpcSubmitter._submit_batches", "HpcSubmitter._make_batch")
+        r.check(ok, f"{s.fn.short} is not part of a submitter round", key_of(s.fn, "round reloads job status"), s.loc, f"{s.fn.short} reloads the job status in the middle of a submitter round", "a dependent ... still starts")
+    if n < 2:
+        raise AnalysisError("C04.10", f"{n} reload call sites found")
+
+
+@rule(P, "C04.11", "T14", "the start scan looks at every queued entry: a blocked entry at the head cannot hide a runnable one behind it", min_obligations=2)
+def c04_11(ctx, r):
+    """JobQueue.process_queue walks the queued entries, skips the blocked ones and starts the runnable ones until the free slots are used.  The
+    blocker of a queued job can itself be queued *behind* it (configuration order, local mode).  If the walk is cut to a prefix of the queue
+    (a slice by the number of free slots) or stops at the first blocked entry, the blocker is never started, so its dependent is neither
+    canceled (flagged) nor ever started (unflagged)."""
+    fn = ctx.fn("JobQueue.process_queue", "C04.11")
+    cfg = ctx.cfg(fn)
+    starts = [s for s in ctx.sites(fn, short="JobQueue._run_job")]
+    if len(starts) != 1:
+        raise AnalysisError("C04.11", f"{len(starts)} _run_job call sites in process_queue")
+    loops = ctx.enclosing(fn, starts[0].node, (ast.For,))
+    if not loops:
+        raise AnalysisError("C04.11", "the start is not inside a scan loop")
+    lp = loops[-1]
+    it = lp.iter
+    if isinstance(it, ast.Call) and ctx.src(it.func) in ("enumerate", "list", "iter") and it.args:
+        it = it.args[0]
+    whole = isinstance(it, ast.Attribute) and isinstance(it.value, ast.Name) and it.value.id == fn.params[0]
+    r.check(whole, "the scan iterates the whole queue attribute", key_of(fn, "scan over part of the queue"), fn.loc(lp),
+            f"the start scan iterates `{ctx.src(it)}`, not the whole queue: entries outside that part are not considered in this poll - a runnable blocker queued behind blocked entries is never started, "
+            "its dependents are never canceled or started", "a dependent not flagged that way still starts once all its blockers have an outcome")
+    # leaving the scan early: only once something was started in this iteration (break after the start), never on a blocked entry
+    for p in iteration_paths(ctx, fn, lp, avoid=(), kinds=NORMAL_KINDS, cap=200, with_path=True):
+        kind, path = p[0], [x[0] for x in p[3]]
+        if kind != "leave":
+            continue
+        started = any(any(c is starts[0].node for c in cfg.calls_at(n)) for n in path)
+        exhausted = not any(n.kind == "stmt" and isinstance(n.ast, (ast.Break, ast.Return)) for n in path)
+        r.check(started or exhausted, "the scan is left early only after a start", key_of(fn, "scan left on a skipped entry"), fn.loc(lp),
+                "process_queue can leave the scan on an entry it did not start (a blocked one): runnable entries behind it are not started in this poll, and if the blocker is among them, never",
+                "a dependent not flagged that way still starts once all its blockers have an outcome")
